@@ -2,6 +2,9 @@
 #define VP_WITH_IO
 #include "fingerprint.h"
 #include "vpstream.h"
+#ifndef C17_FULL
+#define C17_FULL 0
+#endif
 #ifndef C17_SYMBOLIC_LITERAL
 #define C17_SYMBOLIC_LITERAL 0
 #endif
@@ -15,7 +18,7 @@ namespace {
    };
    struct History {                     // everything in which the two constructions may differ
       unsigned name_order;              // permutation of the creation order of the three names
-      bool junk_before, junk_between, types_first;
+      bool junk_before, junk_between, types_first, alt_swap;   // alt_swap: the two alternative types of the sum are first requested in the other order
    };
    const unsigned perms[6][3] = { {0,1,2}, {0,2,1}, {1,0,2}, {1,2,0}, {2,0,1}, {2,1,0} };
 
@@ -29,6 +32,8 @@ namespace {
          if (h.junk_before) junk();
          const ipr::Type* ptr = nullptr; const ipr::Type* cq = nullptr;
          auto make_types = [&] { ptr = &lx.get_pointer(lx.char_type()); cq = &lx.get_qualified(lx.const_qualifier(), lx.int_type()); };
+         const ipr::Type* alt0 = nullptr; const ipr::Type* alt1 = nullptr;
+         if (h.alt_swap) { alt1 = &lx.get_pointer(lx.long_type()); alt0 = &lx.get_pointer(lx.short_type()); } else { alt0 = &lx.get_pointer(lx.short_type()); alt1 = &lx.get_pointer(lx.long_type()); }
          if (h.types_first) make_types();
          for (int k = 0; k < 3; ++k) { unsigned i = perms[h.name_order][k]; N[i] = &lx.get_identifier(util::word_view(p.id[i], p.idlen[i])); if (k == 0 && h.junk_between) junk(); }
          if (!h.types_first) make_types();
@@ -87,6 +92,8 @@ namespace {
             reg.declare_var(*N[1], lx.get_pointer(fn));
             reg.declare_var(*N[2], lx.get_ptr_to_member(*c, lx.get_qualified(lx.volatile_qualifier() | lx.const_qualifier(), *ptr)));
             reg.declare_var(*N[1], lx.get_pointer(lx.get_pointer(lx.bool_type())));
+            impl::Warehouse<ipr::Type> alts; alts.push_back(*alt0); alts.push_back(*alt1); alts.push_back(*alt0);          // a sum type (dynamic exception specification), listed order short, long, short
+            reg.declare_var(*N[2], lx.get_pointer(lx.get_function(lx.get_product(w), lx.void_type(), lx.get_sum(alts))));
             tracked.node<ipr::Class>(*c); break; }
          }
          tracked.node<ipr::Scope>(reg.scope);
@@ -95,6 +102,15 @@ namespace {
       // prints the whole unit with a fresh printer on a fresh stream; 0 = completed, 1 = logic_error
       int print(bool locations, std::ostringstream*& os) { os = new std::ostringstream; Printer pp { lx, *os }; pp.print_locations = locations; return vp_outcome([&] { pp << unit; }); }
    };
+   History make_history() {
+#if C17_FULL
+      return History { vp_pick(6), vp_flag(), vp_flag(), vp_flag(), vp_flag() };
+#else
+      // quick tier: three of the six creation orders, one flag for both kinds of unrelated allocations
+      static const unsigned orders[3] = { 5, 3, 1 }; bool junk = vp_flag();
+      return History { orders[vp_pick(3)], junk, junk, vp_flag(), vp_flag() };
+#endif
+   }
    bool printable(char8_t c) { return (c >= u8'a' && c <= u8'z') || c == u8'_' || (c >= u8'A' && c <= u8'Z'); }
    void make_params(Params& p, unsigned ntmpl) {
       p.tmpl = vp_pick(ntmpl);
@@ -113,7 +129,7 @@ extern "C" void h_same_text(void) {
    Params p; make_params(p, 6);
    uint64_t loc = nondet_ulong(); p.file = uint32_t(loc) & 0xffff; p.line = uint32_t(loc >> 16) & 0xffff; p.col = uint32_t(loc >> 32) & 0xffff;      // symbolic locations (numbers compared as terms)
    p.print_locations = vp_flag();
-   History ha { 0, false, false, true }, hb { vp_pick(6), vp_flag(), vp_flag(), vp_flag() };
+   History ha { 0, false, false, true, false }, hb = make_history();
    Graph* a = new Graph; a->build(p, ha);
    Graph* b = new Graph; b->build(p, hb);
    std::ostringstream *oa, *ob, *oa2;
@@ -129,7 +145,7 @@ extern "C" void h_same_text(void) {
 extern "C" void h_locations(void) {
    Params p; make_params(p, 6);
    bool has_file = vp_flag(); p.file = has_file ? 7 : 0; p.line = 8; p.col = vp_flag() ? 9 : 0; p.print_locations = vp_flag();
-   History h { 0, false, false, true };
+   History h { 0, false, false, true, false };
    Graph* a = new Graph; a->build(p, h);
    Params q = p; q.file = 0; q.line = 0; q.col = 0;
    Graph* plain = new Graph; plain->build(q, h);                   // the same graph without any location
